@@ -28,15 +28,35 @@ func scaled(text string) (int64, bool) {
 		return 0, false
 	}
 	n := r.Num()
-	if !n.IsInt64() || n.BitLen() > 60 {
+	// TLC integers are 32 bit
+	if !n.IsInt64() || n.BitLen() > 30 {
 		return 0, false
 	}
 	return n.Int64(), true
 }
 
+// ratKey is the exact value of a numeric spelling as a normalised fraction (the identity of a number whatever
+// its spelling or size); "" when the text is not a number.
+func ratKey(text string) string {
+	r, ok := new(big.Rat).SetString(text)
+	if !ok {
+		return ""
+	}
+	return r.String()
+}
+
+// f64Key identifies the float64 nearest to a numeric spelling (what a double precision column compares with).
+func f64Key(text string) string {
+	f, err := strconv.ParseFloat(text, 64)
+	if err != nil {
+		return ""
+	}
+	return strconv.FormatFloat(f, 'x', -1, 64)
+}
+
 func numConst(ty, text string) SNode {
 	n, exact := scaled(text)
-	return SNode{"k": "const", "ty": ty, "text": text, "n": n, "exact": exact, "codes": []int{}}
+	return SNode{"k": "const", "ty": ty, "text": text, "n": n, "exact": exact, "codes": []int{}, "key": ratKey(text), "fkey": f64Key(text)}
 }
 
 func strVal(n *pg_query.Node) (string, bool) {
@@ -134,7 +154,7 @@ func normExpr(n *pg_query.Node) SNode {
 		case *pg_query.A_Const_Fval:
 			return numConst("float", v.Fval.Fval)
 		case *pg_query.A_Const_Sval:
-			return SNode{"k": "const", "ty": "str", "text": v.Sval.Sval, "n": 0, "exact": true, "codes": codes(v.Sval.Sval)}
+			return SNode{"k": "const", "ty": "str", "text": v.Sval.Sval, "n": 0, "exact": true, "codes": codes(v.Sval.Sval), "key": "", "fkey": ""}
 		case *pg_query.A_Const_Boolval:
 			return other("bool const")
 		}
